@@ -466,9 +466,18 @@ class PoolManager(RequestMethods):
         # Strip headers marked as unsafe to forward to the redirected location.
         # Check remove_headers_on_redirect to avoid a potential network call within
         # conn.is_same_host() which may use socket.gethostbyname() in the future.
-        if retries.remove_headers_on_redirect and not conn.is_same_host(
-            redirect_location
-        ):
+        if self._proxy_requires_url_absolute_form(u):
+            # ``conn`` is the pool of the forwarding proxy, not of the origin the
+            # request was addressed to: compare the redirect target with that origin.
+            target = parse_url(redirect_location)
+            same_host = (
+                target.scheme,
+                target.host,
+                target.port or port_by_scheme.get(target.scheme or ""),
+            ) == (u.scheme, u.host, u.port or port_by_scheme.get(u.scheme or ""))
+        else:
+            same_host = conn.is_same_host(redirect_location)
+        if retries.remove_headers_on_redirect and not same_host:
             new_headers = kw["headers"].copy()
             for header in kw["headers"]:
                 if header.lower() in retries.remove_headers_on_redirect:
